@@ -959,11 +959,13 @@ func c09GenInput(r *kit.Rand) *c09Input {
 	}
 	// strategy
 	for res := 0; res < 2; res++ {
-		switch r.Weighted(48, 48, 4) {
+		switch r.Weighted(40, 40, 15, 5) {
 		case 0:
-			in.Thr[res] = kit.Pick(r, []int64{0, 1, 50, 60, 65, 70, 99, 100})
+			in.Thr[res] = kit.Pick(r, []int64{50, 60, 65, 70, 80, 90, 99, 100})
 		case 1:
-			in.Thr[res] = int64(r.Range(0, 100))
+			in.Thr[res] = int64(r.Range(30, 100))
+		case 2:
+			in.Thr[res] = kit.Pick(r, []int64{0, 1, int64(r.Range(0, 30)), int64(r.Range(0, 30))})
 		default:
 			in.Thr[res] = kit.Pick(r, []int64{101, 120, 150, 200})
 		}
@@ -1341,5 +1343,109 @@ func TestVerifC09Degrade(t *testing.T) {
 				}
 			}
 			c09CheckBounds(c, in, out, "eval")
+		})
+}
+
+// ---------------------------------------------------------------------------------------------
+// hand-written minimal inputs (exhaustive over the list): the smallest input for each clause of the
+// statement, so that a violation of a clause has a replay file a human can read in one line.
+
+func c09MinimalInputs() []struct {
+	name string
+	in   *c09Input
+} {
+	const gi = int64(1) << 30
+	base := func() *c09Input {
+		return &c09Input{Cap: c09Res{100000, 100 * gi}, Thr: [2]int64{100, 100}, CapPct: [2]int64{-1, -1}, DegradeMin: 15}
+	}
+	prod := func(name string, qos extension.QoSClass, req, usage c09Res, metric bool) c09Pod {
+		return c09Pod{Name: name, Class: extension.PriorityProd, QoSLabel: qos, Repr: 0, PrioVal: -1, Phase: corev1.PodRunning,
+			Containers: []c09Res{req}, HasMetric: metric, Usage: usage}
+	}
+	var out []struct {
+		name string
+		in   *c09Input
+	}
+	add := func(name string, f func(in *c09Input)) {
+		in := base()
+		f(in)
+		out = append(out, struct {
+			name string
+			in   *c09Input
+		}{name, in})
+	}
+	add("one prod pod (10 CPU, 10Gi) without metrics, cpu+memory policy maxUsageRequest, no margin/system usage/reservation", func(in *c09Input) {
+		in.Pods = []c09Pod{prod("p", extension.QoSLS, c09Res{10000, 10 * gi}, c09Res{}, false)}
+		in.Policy = [2]int{c09PolMax, c09PolMax}
+	})
+	add("the same pod under the usage policy", func(in *c09Input) {
+		in.Pods = []c09Pod{prod("p", extension.QoSLS, c09Res{10000, 10 * gi}, c09Res{}, false)}
+		in.Policy = [2]int{c09PolUsage, c09PolUsage}
+	})
+	add("the same pod with a metric (2 CPU, 2Gi) under maxUsageRequest", func(in *c09Input) {
+		in.Pods = []c09Pod{prod("p", extension.QoSLS, c09Res{10000, 10 * gi}, c09Res{2000, 2 * gi}, true)}
+		in.Policy = [2]int{c09PolMax, c09PolMax}
+	})
+	add("no pods, system usage 20Gi, no reservation, memory policy request", func(in *c09Input) {
+		in.Sys = c09Res{0, 20 * gi}
+		in.Policy = [2]int{c09PolUsage, c09PolRequest}
+	})
+	add("the same with two NUMA zones", func(in *c09Input) {
+		in.Sys = c09Res{0, 20 * gi}
+		in.Policy = [2]int{c09PolUsage, c09PolRequest}
+		in.Zones = []c09Res{{50000, 50 * gi}, {50000, 50 * gi}}
+	})
+	add("system usage 20Gi below an annotation reservation of 30Gi, memory policy request", func(in *c09Input) {
+		in.Sys = c09Res{0, 20 * gi}
+		in.AnnoKind, in.AnnoRes, in.AnnoHas = 1, c09Res{0, 30 * gi}, [2]bool{false, true}
+		in.Policy = [2]int{c09PolUsage, c09PolRequest}
+	})
+	add("LSE pod requesting 10 CPU and using 2, usage policy", func(in *c09Input) {
+		in.Pods = []c09Pod{prod("p", extension.QoSLSE, c09Res{10000, 10 * gi}, c09Res{2000, 2 * gi}, true)}
+	})
+	add("metric of a vanished prod pod (5 CPU, 5Gi) and a prod host application (3 CPU, 3Gi), reservation 2 CPU", func(in *c09Input) {
+		in.Dangling = []c09Metric{{Name: "gone", Prio: extension.PriorityProd, Usage: c09Res{5000, 5 * gi}}}
+		in.HostApps = []c09Metric{{Name: "app", Prio: extension.PriorityProd, Usage: c09Res{3000, 3 * gi}}}
+		in.KubeletReserved = c09Res{2000, 0}
+	})
+	add("percentage cap 10% with an idle node, thresholds 65", func(in *c09Input) {
+		in.Thr = [2]int64{65, 65}
+		in.CapPct = [2]int64{10, 10}
+	})
+	add("pods requesting more than the node has (clamp at zero)", func(in *c09Input) {
+		in.Pods = []c09Pod{prod("p", extension.QoSLS, c09Res{120000, 120 * gi}, c09Res{110000, 110 * gi}, true)}
+		in.Policy = [2]int{c09PolMax, c09PolRequest}
+	})
+	add("node metric one second older than the degrade time", func(in *c09Input) {
+		in.AgeNanos = in.DegradeMin*int64(time.Minute) + int64(time.Second)
+	})
+	add("no NodeMetric object yet", func(in *c09Input) { in.MetricKind = 2 })
+	return out
+}
+
+func TestVerifC09Minimal(t *testing.T) {
+	c09Setup(t)
+	inputs := c09MinimalInputs()
+	kit.Run(t, kit.Config{Property: "C09", Unit: "minimal", Quick: len(inputs), Thorough: len(inputs), Exhaustive: true,
+		Rule: "exhaustive over a hand-written list of minimal inputs, one per clause of the statement (metric-less pod under each policy, request policy with system usage above/below the reservation, with zones, LSE pod, dangling metric + host application, percentage cap, clamp, stale and missing metric); same oracles as the generated units; every input counts as distinct and non-trivial"},
+		func(c *kit.Case) {
+			m := inputs[c.K]
+			in := m.in
+			c.Op("%s: %+v", m.name, *in)
+			out := c09Run(c, in, "eval")
+			c.Seen(c.K)
+			c.NonTrivial()
+			if stale, _ := in.stale(); stale {
+				if !out.reset {
+					c.Fail("C09/degrade/stale-metric-not-reset", "%s: numbers are published: cpu=%s mem=%s", m.name, out.node[0].RatString(), out.node[1].RatString())
+				}
+				c.Count("stale_reset", 1)
+				return
+			}
+			if out.reset {
+				c.Fail("C09/output/reset-on-fresh-metric", "%s: fresh node metric but the items are resets", m.name)
+			}
+			c.Sample(map[string]any{"input": m.name, "published_cpu_milli": out.node[0].RatString(), "published_memory_bytes": out.node[1].RatString()})
+			c09CheckBounds(c, in, out, m.name)
 		})
 }
